@@ -26,7 +26,7 @@ func (s ImgSpec) String() string {
 	return fmt.Sprintf("%s/%dx%d/%s/%s/c%d/s%x", s.Family, s.W, s.H, s.Alpha, s.Type, s.Colors, s.Seed&0xffff)
 }
 
-var imgFamilies = []string{"flat", "hgrad", "vgrad", "dgrad", "smooth", "noise", "pal", "text", "regions", "patch"}
+var imgFamilies = []string{"flat", "hgrad", "vgrad", "dgrad", "smooth", "noise", "pal", "text", "regions", "patch", "hole"}
 var alphaPatterns = []string{"opaque", "transparent", "blocks", "stripes", "single", "levels", "gradient", "noise"}
 
 // GenImgSpec draws a spec. maxSide bounds the size; wantAlpha: 0 never, 1 maybe, 2 always.
@@ -128,9 +128,21 @@ func genSide(r *RNG, lo, hi int) int {
 func Generate(s ImgSpec) image.Image {
 	r := NewRNG(s.Seed)
 	w, h := s.W, s.H
+	leadRun := 0 // pal: the picture starts with this many opaque pixels of palette colour 0 (black)
 	pix := image.NewNRGBA(image.Rect(0, 0, w, h))
 	base := [3]uint8{uint8(r.Next()), uint8(r.Next()), uint8(r.Next())}
 	base2 := [3]uint8{uint8(r.Next()), uint8(r.Next()), uint8(r.Next())}
+	// boundary colours: pure black / white / primary colours now and then
+	switch r.Intn(12) {
+	case 0:
+		base = [3]uint8{0, 0, 0}
+	case 1:
+		base = [3]uint8{255, 255, 255}
+	case 2:
+		base2 = [3]uint8{0, 0, 0}
+	case 3:
+		base, base2 = [3]uint8{0, 0, 0}, [3]uint8{255, 255, 255}
+	}
 	set := func(x, y int, c [3]uint8) {
 		o := y*pix.Stride + x*4
 		pix.Pix[o], pix.Pix[o+1], pix.Pix[o+2], pix.Pix[o+3] = c[0], c[1], c[2], 255
@@ -216,8 +228,18 @@ func Generate(s ImgSpec) image.Image {
 			v := r.Next()
 			pal[i] = [3]uint8{uint8(v), uint8(v >> 8), uint8(v >> 16)}
 		}
+		blackFirst := r.Pct(30)
+		if blackFirst {
+			pal[0] = [3]uint8{0, 0, 0}
+		}
+		if n > 1 && r.Pct(25) {
+			pal[n-1] = [3]uint8{255, 255, 255}
+		}
 		cur := 0
 		run := 0
+		if blackFirst {
+			leadRun = 1 + int(s.Seed%5)
+		}
 		for y := 0; y < h; y++ {
 			for x := 0; x < w; x++ {
 				if s.Runs {
@@ -284,6 +306,41 @@ func Generate(s ImgSpec) image.Image {
 					set(x, y, lerp(x%64, 63))
 				default:
 					set(x, y, cols[(x/3+y/5)%3])
+				}
+			}
+		}
+	case "hole":
+		// textured everywhere except one or two flat macroblock-aligned blocks
+		for y := 0; y < h; y++ {
+			for x := 0; x < w; x++ {
+				v := r.Next()
+				set(x, y, [3]uint8{uint8(v), uint8(v >> 8), uint8(v >> 16)})
+			}
+		}
+		for k := 0; k < 1+r.Intn(2); k++ {
+			// a strip two or three macroblocks long whose content continues exactly
+			// along the strip (stripes across it): the later blocks are predicted
+			// perfectly from the first one
+			bx, by := 16*r.Intn(imax(1, (w+15)/16)), 16*r.Intn(imax(1, (h+15)/16))
+			bw, bh := 16, 16*r.Range(2, 3)
+			vertical := r.Bool()
+			if !vertical {
+				bw, bh = bh, bw
+			}
+			amp := uint8(r.Range(1, 6))
+			for y := by; y < by+bh && y < h; y++ {
+				for x := bx; x < bx+bw && x < w; x++ {
+					c := base
+					t := x - bx
+					if !vertical {
+						t = y - by
+					}
+					if t/4%2 == 1 {
+						c[0] += amp // small steps on 4-pixel boundaries
+						c[1] += amp
+						c[2] += amp
+					}
+					set(x, y, c)
 				}
 			}
 		}
@@ -387,6 +444,13 @@ func Generate(s ImgSpec) image.Image {
 		}
 	default:
 		panic("unknown alpha pattern " + s.Alpha)
+	}
+	if s.Family == "pal" && w*h > 1<<20 {
+		// very large palette pictures end with a copy of their first row
+		copy(pix.Pix[(h-1)*pix.Stride:(h-1)*pix.Stride+4*w], pix.Pix[:4*w])
+	}
+	for x := 0; x < leadRun && x < w; x++ {
+		pix.Pix[4*x], pix.Pix[4*x+1], pix.Pix[4*x+2], pix.Pix[4*x+3] = 0, 0, 0, 255
 	}
 	return wrapType(pix, s, r)
 }
